@@ -108,7 +108,7 @@ def run(prop: str, tier: str) -> int:
             for k, h in enumerate(hs):
                 tid += 1
                 traces.append(L.run_trace(op, schedule=h, nested=True, nested_op=nested_ops[(k + oi) % len(nested_ops)],
-                                          tmpdir=tmpdir, trace_id=tid))
+                                          tmpdir=tmpdir, trace_id=tid, rebuild=(k % 2 == 1)))
         validate(rep, traces, "forced: 1 writer (nested) x 1 reader, every operation")
         traces = []
         for oi, op in enumerate(L.OPS):      # the same on a TypedTree (the kind list belongs to the snapshot)
